@@ -83,3 +83,14 @@ package clientip
 //@   loop 1: invariant -1 <= rangeindex && rangeindex < len(s.resolvers)
 //@   loop 1: invariant forall j int :: {s.resolvers[j]} 0 <= j && j <= rangeindex ==> resolverErr(s.resolvers[j], c, hCalls) != nil
 //@   loop 1: decreases len(s.resolvers) - rangeindex
+
+//@ -- membership in a range table: exactly "some entry of the table contains the address" (every strategy's
+//@ -- trusted / blacklisted test goes through it)
+//@ fun netContains(n net.IPNet, ip net.IP) bool
+//@ extern (*IPNet).Contains in net pure
+//@   ensures result == netContains(*n, ip)
+//@ func isIPContainedInRanges props C18
+//@   ensures member: result <==> exists k int :: 0 <= k && k < len(ranges) && netContains(ranges[k], ip)
+//@   loop 1: invariant -1 <= rangeindex && rangeindex < len(ranges)
+//@   loop 1: invariant none-so-far: forall k int :: {ranges[k]} 0 <= k && k <= rangeindex ==> !netContains(ranges[k], ip)
+//@   loop 1: decreases len(ranges) - rangeindex
